@@ -42,6 +42,9 @@ CHECKS = {
  "C18": ("shape rules with slots over the parsers and read_ids against the format tables; rank-map recogniser",
          "Comment cut / strip / split / field-count filter / pop order / conversions-to-TypeError / keys remap order, identical discipline in read_ids, and compact_timeslot = enumerate(sorted(.)) rank map.",
          "3.6, 4/C18"),
+ "C19": ("override/blocking closure over the parsed source of the installed networkx (MRO-resolved self-call graph + taint effects); decorator body analysis; freeze coverage",
+         "Every public callable of the MRO that can change adjacency/node structure through self is a timestamped owner or lands on an always-raising override; required-blocked names resolve to always-raising definitions; base-class calls go to the direct base and reset both indexes; freeze shadows every mutator not blocked for all graphs. Pinned deviations (freeze vs add_interaction; update(nodes=)) are known findings.",
+         "3.5, 4/C19"),
 }
 NA = [
  ("C13", "completeness of a data-dependent graph search: no shape-of-the-code necessary condition beyond what C12/C15 decide (DESIGN.md section 5)"),
